@@ -274,7 +274,7 @@ func TypeStressFamily(intn func(int) int, n int) []string {
 
 func typeStressHead(intn func(int) int, m, op, lbl string) string {
 	var sb strings.Builder
-	shape := intn(10)
+	shape := intn(11)
 	// base recursive (or not) type A and a partner B
 	switch shape {
 	case 0: // two isomorphic recursive types
@@ -306,6 +306,20 @@ func typeStressHead(intn func(int) int, m, op, lbl string) string {
 			fmt.Fprintf(&sb, "let g(x : %s1 %s (1 %s (1 %s A))) : %sB = y : %s1 %s B <- new fwd self x; fwd self y\n", m, bin, bin, bin, m, m, bin)
 			return sb.String() + "\x00"
 		}
+	case 10: // two families of choice types with shared sub-types, compared with each other
+		d := 6 + intn(26)
+		mm := m
+		if mm == "" {
+			mm = "lin "
+		}
+		for _, fam := range []string{"T", "U"} {
+			for i := 0; i < d; i++ {
+				fmt.Fprintf(&sb, "type %s%d = %s%s{a : %s%d, b : %s%d}\n", fam, i, mm, op, fam, i+1, fam, i+1)
+			}
+			fmt.Fprintf(&sb, "type %s%d = %s1\n", fam, d, mm)
+		}
+		fmt.Fprintf(&sb, "let f(x : %sT0) : %sU0 = fwd self x\n", mm, mm)
+		return sb.String() + "\x00"
 	case 9: // three names: an alias chain that leads into a cycle it is not part of
 		cyc := [][2]string{{"C", "C"}, {"C", "D"}}[intn(2)]
 		decls := []string{fmt.Sprintf("type A = %sB\n", m), fmt.Sprintf("type B = %sC\n", m), fmt.Sprintf("type C = %s%s\n", m, cyc[1])}
